@@ -191,8 +191,8 @@ def gen_cases(ctx, quick):
                     k = min(N - 1, need[d] + rng.choice([0, 1, 3]))
                 if region == "kltsa":
                     d = min(d, k)
-                if region in SPARSE and N < 3:
-                    continue
+                if region in SPARSE and (N < 3 or (quick and N > 40)):
+                    continue        # the eigen-solver bodies are slow in the -O0 quick build
                 L = max(1, min(N, rng.choice([1, 2, 3, N // 2 or 1, N])))
                 if region == "tri":
                     d = min(d, L)
@@ -275,7 +275,8 @@ def run_cases(ctx, exe, cases, combos, timeout=900, env=None):
     todo = list(cases)
     while todo:
         inp = "COMBOS " + " ".join(combos) + "\n" + "".join(case_line(c) for c in todo)
-        r = ctx.run(exe, inp, timeout=timeout, env=env)
+        # passive waiting: 16 spinning threads on a loaded machine make every barrier slow
+        r = ctx.run(exe, inp, timeout=timeout, env=dict({"OMP_WAIT_POLICY": "passive", "GOMP_SPINCOUNT": "0"}, **(env or {})))
         cur = None
         for line in r.out.splitlines():
             w = line.split()
@@ -379,7 +380,7 @@ EMBED_TOL_SPARSE = 1e-4      # tolerance stream: null-space eigenproblems amplif
                              # triplet sums by their conditioning (measured: 1e-11 .. 5e-9)
 
 
-def embed_runs(ctx, stats):
+def embed_runs(ctx, stats, only=None):
     """thorough tier: whole methods through tapkee::embed under the thread/schedule combinations; the Gram
     matrix E E^T of the embedding (free of eigenvector sign / rotation inside multiple eigenvalues) is compared"""
     exe = ctx.cpp("harness/c15_embed.cpp", defines=["nowait=schedule(runtime) nowait"], timeout=1500)
@@ -392,6 +393,8 @@ def embed_runs(ctx, stats):
             k = {1: 6, 2: 9}[d] + rng.choice([0, 2]) if m == "hlle" else rng.choice([6, 8, 10])
             cases.append({"kind": "embed", "id": len(cases), "method": m, "N": N, "D": 3, "k": k, "d": d,
                           "seed": rng.randrange(1, 10 ** 6)})
+    if only is not None:
+        cases = [dict(only, id=0)]
     inp = "COMBOS " + " ".join(combos) + "\n" + "".join(
         "CASE %d %s %d %d %d %d %d\n" % (c["id"], c["method"], c["N"], c["D"], c["k"], c["d"], c["seed"]) for c in cases)
     todo = list(cases)
@@ -685,7 +688,7 @@ def run(ctx):
             cases.append(cc)
             hist["corpus"] += 1
     cases += gen_cases(ctx, quick)
-    res = run_cases(ctx, exe, cases, combos, timeout=1500 if not quick else 600)
+    res = run_cases(ctx, exe, cases, combos, timeout=1500 if not quick else 300)
     n_eval = judge(ctx, cases, res, combos, stats)
     stats["t_runs_done_s"] = round(ctx.elapsed(), 1)
     if not table_ok and tr is not None and det.get("regions") is not None:
@@ -745,6 +748,14 @@ def run(ctx):
 def replay(ctx, case):
     kind = case.get("kind", "run")
     stats = {}
+    if kind == "embed":
+        embed_runs(ctx, stats, only=case)
+        print("worst relative difference of the embedding's Gram matrix: %s" % stats.get("embed_worst_relative_gram_difference"))
+        print("replay: property C15 %s on this input" % ("FAILS" if ctx.has_violation() else "holds"))
+        return 1 if ctx.has_violation() else 0
+    if kind == "run" and "region" not in case:
+        print("replay: unknown case format")
+        return 2
     if kind == "witness":
         tr, text, err = regenerate(ctx)
         if err:
